@@ -39,7 +39,8 @@ CLAIMED = {
 
 TRACE = ("RigoProps.tla predicates evaluated by TLC on recorded (pre-state, call, response, post-state) of the real RigoApp "
          "(RigoTrace.tla), directed scenarios + seeded random block histories")
-NOTE = ("consensus engine simulated at the ABCI boundary per Tendermint 0.34; histories sampled (directed + random), "
+NOTE = ("consensus engine simulated at the ABCI boundary per Tendermint 0.34; histories sampled (directed + random; genesis families from "
+        "validators of power 1 to validators of 10^17 power, the latter recorded in units of 10^12 powers and judged with the stake unit 10^30), "
         "predicates exact (256-bit arithmetic in BigNat.tla); harness projections trusted, cross-checked by the Query path")
 
 
